@@ -28,11 +28,26 @@ def install(ns, prop, level, oracles, bounds, assumptions, extra_tasks=None, ext
             elif spec[0] == 'reopen':
                 _, cfgs, depth_after = spec
                 out += master.make_reopen_tasks(cfgs, depth_after)
+            elif spec[0] == 'big':
+                out += [{'big': name} for name in spec[1]]
         if extra_tasks:
             out += extra_tasks(tier)
         return out
 
+    def run_big(name):
+        from mc import bigfile
+        byname = dict((c[0], c) for c in bigfile.cases())
+        return [v for v in bigfile.run_case(*byname[name]) if v['prop'] == prop]
+
     def run_task(task):
+        if task.get('big'):
+            from mc.framework import Result
+            res = Result()
+            res.count('large_file_histories')
+            res.count('executions')
+            for v in run_big(task['big']):
+                res.violation(v['clause'], v['cls'], v['msg'], {'big': task['big']})
+            return res
         if extra_run and task.get('extra'):
             return extra_run(task)
         if task.get('alpha'):
@@ -40,6 +55,8 @@ def install(ns, prop, level, oracles, bounds, assumptions, extra_tasks=None, ext
         return master.run_task(task, oracles)
 
     def check_case(case):
+        if case.get('big'):
+            return run_big(case['big'])
         if extra_run and case.get('extra'):
             return ns['check_extra'](case)
         status, viols, info = master.evaluate(case, oracles)
@@ -51,6 +68,9 @@ def install(ns, prop, level, oracles, bounds, assumptions, extra_tasks=None, ext
                 return {'enumeration': 'all histories over sigma1/' + spec[1], 'configs': len(spec[2]), 'depth': spec[3]}
             if spec[0] == 'alpha':
                 return {'enumeration': 'all histories over ' + spec[1], 'configs': len(spec[2]), 'depth': spec[3]}
+            if spec[0] == 'big':
+                return {'enumeration': 'fixed list of histories with files of 0xfffff800-1 .. 2*0xfffff800+5 bytes on virtual devices (mc/bigfile.py); a list, not an alphabet',
+                        'cases': list(spec[1])}
             if spec[0] == 'reopen':
                 return {'enumeration': 'base images of mc/ops.py:reopen_bases . REOPEN . all histories over sigma1/reopen (further REOPENs allowed)',
                         'configs': len(spec[1]), 'depth_after_reopen': spec[2]}
@@ -82,16 +102,24 @@ ALPHABETS = {
 }
 
 
-def default_bounds(quick_depth=2, thorough_depth=3, ce=False):
+BIG_ISO = ['iso-lim-1', 'iso-lim', 'iso-lim+1', 'iso-4g+2049', 'iso-2lim+5', 'add-rm-add', 'link', 'level1-refused']
+BIG_UDF = ['all-lim+1', 'rr-udf-lim+1', 'all-4g+2049', 'rr-udf-4g+2049', 'udf-only-4g']
+
+
+def default_bounds(quick_depth=2, thorough_depth=3, ce=False, big_udf=False):
     b = {
-        'quick': [('dfs', 'quick', ops.CFG12, quick_depth, 1), ('dfs', 'macro', ops.CFG12[3:4] + ops.CFG12[9:11], 1, 1),
-                  ('chains', [ops.CFG12[1], ops.CFG12[3], ops.CFG12[10]])],
+        'quick': [('dfs', 'quick', ops.CFG12, quick_depth, 1), ('dfs', 'quick', [ops.CFG12[7], ops.CFG12[10]], 3, 2),
+                  ('dfs', 'macro', ops.CFG12[3:4] + ops.CFG12[9:11], 1, 1),
+                  ('chains', [ops.CFG12[1], ops.CFG12[3], ops.CFG12[10]]),
+                  ('reopen', [ops.CFG12[10]], 1)],
         'thorough': [('dfs', 'quick', ops.CFG12, thorough_depth, 2), ('dfs', 'macro', ops.CFG12, 2, 1),
-                     ('dfs', 'quick', ops.CFG256, 2, 1), ('chains', ops.CFG12)],
+                     ('dfs', 'quick', ops.CFG256, 2, 1), ('chains', ops.CFG12), ('reopen', ops.CFG_MULTI, 2)],
     }
     b['quick'].append(('alpha', 'sigma_readd', [ops.CFG12[7], ops.CFG12[9]], 4, 2))
     b['thorough'].append(('alpha', 'sigma_readd', ops.CFG12, 5, 2))
     b['thorough'].append(('alpha', 'sigma_readd_big', ops.CFG_MULTI[1:4], 5, 2))
+    b['quick'].append(('big', ['iso-lim+1']))
+    b['thorough'].append(('big', BIG_ISO + (BIG_UDF if big_udf else [])))
     if ce:
         b['quick'].append(('alpha', 'sigma_ce', ops.CFG_RR[:2], 5, 2))
         b['thorough'].append(('alpha', 'sigma_ce', ops.CFG_RR, 6, 2))
